@@ -835,4 +835,47 @@ theorem lalOf_fact (e : Env) (k : Nat) (p : Pat) (sl : SymLal) (h : lalOf k p = 
               | _ => simp at h
             | _ => simp at h
 
+/-- **the prefix of what follows the loop** (as `tryFindPrefix` computes it) stands where the loop's run ends -/
+theorem lalPrefixOf_fact (e : Env) (p : Pat) (P : Pred) (w : List Nat) (h : lalPrefixOf p = some (P, w)) :
+    w ≠ [] ∧ ∀ p0, p0 ≤ e.text.length → (attempt e p false p0).bind (fun st => lastCap st.caps 0) ≠ none →
+      ∃ kk, p0 ≤ kk ∧ (∀ j, p0 ≤ j → j < kk → memAt (P.test e) e.text j = true) ∧ ∃ t, e.text.drop kk = w ++ t := by
+  unfold lalPrefixOf at h
+  cases hu : unwrap p with
+  | seq first R =>
+    rw [hu] at h
+    simp only [] at h
+    cases hl : unboundedLoop? first with
+    | none => rw [hl] at h; simp at h
+    | some Pl =>
+      obtain ⟨Q, lo⟩ := Pl
+      rw [hl] at h
+      simp only [] at h
+      by_cases hw : (leadingPrefix (fun r => [r]) R).1.isEmpty = true
+      · rw [if_pos hw] at h; simp at h
+      · rw [if_neg hw] at h
+        simp only [Option.some.injEq, Prod.mk.injEq] at h
+        obtain ⟨rfl, rfl⟩ := h
+        refine ⟨by simpa [List.isEmpty_iff] using hw, ?_⟩
+        intro p0 hp0 hne
+        cases hat : attempt e p false p0 with
+        | none => simp [hat] at hne
+        | some stA =>
+          obtain ⟨y, hy, _, _⟩ := attempt_success e p false p0 stA hat
+          obtain ⟨z, hz1, hz2⟩ := unwrap_mem e p _ y hy
+          rw [hu] at hz1
+          obtain ⟨mid, m1, m2⟩ := seq_mem e first R _ z hz1
+          obtain ⟨lz, hq⟩ := unboundedLoop_some first Q lo hl
+          obtain ⟨z1, y1, y2⟩ := unwrap_mem e first _ mid m1
+          rw [hq] at y1
+          obtain ⟨j, _, _, j3, j4⟩ := loop_run e lz lo none Q _ z1 y1
+          simp only [] at j3 j4
+          obtain ⟨t, ht, _⟩ := leadingPrefix_ok e (fun r => [r]) R mid z m2
+          refine ⟨mid.pos, by omega, ?_, t, ?_⟩
+          · intro i i1 i2
+            have := j4 (i - p0) (by omega)
+            rw [show p0 + (i - p0) = i by omega] at this
+            exact this
+          · simpa [bytesFrom] using ht
+  | _ => rw [hu] at h; simp at h
+
 end RegexVerif.Lemmas.LoopFacts
